@@ -232,7 +232,13 @@ Definition bits (n : Z) : nat := match n with Zpos p => Pos.size_nat p | _ => O 
 Definition dec_of (n : Z) : list ch :=
   if n <? 0 then 45 :: dec_digits (S (bits (- n))) (- n) [] else dec_digits (S (bits n)) n [].
 
-(* str::parse::<isize>(): optional sign, at least one digit, only digits, in range; otherwise 0 *)
+(* str::parse::<isize>(): optional sign, at least one digit, only digits, in range; otherwise 0.  The value is the plain decimal
+   value (NOT the saturating numeral reader of the lexer: "3000000000" parses to 3000000000; found by the model-vs-code audit) *)
+Fixpoint dec_val (acc : Z) (d : list ch) : Z :=
+  match d with
+  | [] => acc
+  | c :: r => dec_val (acc * 10 + (c - 48)) r
+  end.
 Definition parse_isize (s : list ch) : Z :=
   let '(neg, d) := match s with
                    | 45 :: r => (true, r)
@@ -243,7 +249,7 @@ Definition parse_isize (s : list ch) : Z :=
   | [] => 0
   | _ =>
       if forallb is_digit d then
-        let v := fst (take_dec 0 d) in
+        let v := dec_val 0 d in
         let v := if neg then - v else v in
         if (- 2 ^ 63 <=? v) && (v <? 2 ^ 63) then v else 0
       else 0
